@@ -90,6 +90,31 @@ CHECKS = {
 
 NOT_YET = {}
 
+# rules added after the two rounds of independently seeded changes (DESIGN.md C.6), appended to the level text
+EXTRA = {
+ "C01": "Every alternative an encoder can emit (one per combination of phi operands that can reach the emission) must equal the protocol layout; scanner tokens are not decoded in place (decoder-alias); per-item decoders are fresh values.",
+ "C02": "One buffering reader per connection entry point; io.ReadAtLeast(r, b, len(b)) counts as a whole-read primitive; positional decoders are recognised through the repo function they hand their bytes to.",
+ "C03": "Explicit lock sections are panic-free; gauge increments (also table-driven) are paired with an immediately deferred decrement; locksets flow into closures that a repo helper calls.",
+ "C04": "Registration implies authentication; the login arguments reach Authenticate unmodified.",
+ "C05": "kind-target-agree: the news item whose kind selects the privilege is the item deleted (NewsItem and DeleteNewsItem resolve a path to the same (container, key) signature and receive the same value); special-folder-last-item: IsUploadDir / IsDropbox decide on the last path item only; a privilege number held in a variable is followed through phis.",
+ "C06": "The subset loop may live in a bool predicate helper handed the requester and the bitmap; the protected target is identified through single-assignment cells.",
+ "C07": "requester-root: every ReadPath / NewFileTransfer in request-handling code is rooted at FileRoot() of the function's own connection, the transfer stores that root, FileRoot() prefers the account's root; Clean(\"/\"+x) counts as anchoring.",
+ "C08": "The amount skipped is the decoded resume offset itself on every path that parsed one (0 only where none was parsed); a resource-fork header is followed by its data on every success path; emissions are found through helpers handed the client writer.",
+ "C09": "partial-preserved: nothing removes, truncates, recreates or renames onto a path built with IncompleteFileSuffix (flag bits of the target OS); receive-errors-propagate: in receiveFile / flattenedFileObject.ReadFrom no step's error is dropped and a failed step reaches only returns with a provably non-nil error (nil-sensitive reachability).",
+ "C10": "On 'next file' no further action word is written before the next item header is read (skip-sends-once); the C09 rules partial-preserved and receive-errors-propagate cover the folder upload as well (reported under C09).",
+ "C11": "wrapper-stale (typestate): no method of a fileWrapper is reachable after Move / Delete on it; every client component of the path ReadPath returns has passed txtDecoder; an alias's listed size comes from Stat of its target.",
+ "C12": "Join / leave / subject notices are must-pass on every path that answers the request normally; the chat line is built with the protocol's two formats from (sender's name, request text).",
+ "C13": "The change notice must reach every registered client including the changed one (NotifyOthers only in the login tail); Disconnect notifies on all paths.",
+ "C14": "no-write-deadline: no deadline can interrupt a write on a client connection; the write mutex is held per transaction; a reply constructor may delegate to the other; one-reply is counted on feasible paths.",
+ "C15": "batch-independent: no per-entry state is carried around the loop of the batched account editor; the loader inserts every matched file; disk follows map on the failure edges.",
+ "C16": "wire-in-raw: bytes are copied into an AccessBitmap from offset 0 to offset 0; in UnmarshalYAML every Set is decided by a lookup in the named-flag map and the legacy list is copied element i to byte i for i < len(list).",
+ "C17": "Once the option selects a ban, BanMgr.Add is on every path to the reply (also for a table-driven option map evaluated from the package initialiser); BanFile.Add never deletes an entry; Disconnect does not acquire a mutex held around connection writes before Close.",
+ "C18": "single-copy: every result of the threaded news store derives from the ThreadedNews tree only (no separately invalidated memo / cache).",
+ "C19": "Reload reads the file and replaces the text on every successful return, inside one critical section; what is written to the board is the LF-to-CR conversion of the whole formatted post.",
+ "C20": "The temp file may be written by os.WriteFile or by OpenFile(O_TRUNC)+Write+Close inline or in a helper handed the temp path: every fallible step's failure must make the rename unreachable (nil-sensitive reachability).",
+}
+ROBUST = " Robustness: functions that are not in the reference vocabulary (spec/vocabulary.txt) are expanded in place on a type-checked scratch copy before the rules run (normalised view), and all reachability / must-pass queries prune infeasible 'error recorded, success branch taken' paths (path-sensitive traversal over nil / bool / empty-string / small-integer facts about phi values); validated on 120 independently written behaviour-preserving refactorings (all silent) and 80 independently seeded changes (all reported), see DESIGN.md C.5-C.8. A formulation of the mechanism that the rules do not recognise is reported as undecided (exit 1), never passed."
+
 props=[json.loads(l) for l in open("/verif/properties.jsonl")]
 checks=[]
 na=[]
@@ -104,8 +129,8 @@ for p in props:
             "evidence_file":f"/verif/evidence/{pid}.json",
             "replay_cmd_template":"./bin/hlcheck -explain {path}",
             "engine":"hlcheck",
-            "level_claimed":{"category":"other","text":text,"design_ref":"DESIGN.md section "+ref},
-            "level_note":note,
+            "level_claimed":{"category":"other","text":text+(" Also decided: "+EXTRA[pid] if pid in EXTRA else ""),"design_ref":"DESIGN.md section "+ref+" and appendix C.6"},
+            "level_note":note+ROBUST,
             "technique":tech,
         })
     else:
